@@ -377,6 +377,28 @@ Proof.
   rewrite Her, mulmod_l. exact Hcong.
 Qed.
 
+(** the accumulation bound in terms of the term count: at most 2^lz terms below m keep the two-level carry at <= 1
+    (no word of the accumulator (u, hi, hi_carry) overflows) and the reduced value below 2m *)
+Theorem lincomb_count_bound w u c : Forall mterm_ok w -> Z.of_nat (length w) <= 2 ^ lz ->
+  longa_lincomb w mL ninv = (u, c) ->
+  0 <= c <= 1 /\ 0 <= eval u + R * c < 2 * M /\ ((eval u + R * c) * R) mod M = lin_sum w mod M /\ wf u /\ length u = n.
+Proof.
+  intros Hw Hlen E. pose proof pow_lz_range as Hp. pose proof MleR as HMR. pose proof (Bn_pos n) as HR.
+  assert (HlenB : Z.of_nat (length w) + 4 < B) by (rewrite B_val; change (2 ^ 64) with (2 * 2 ^ 63); change (2 ^ 63) with 9223372036854775808 in *; lia).
+  assert (Hsum : lin_sum w < M * R).
+  { pose proof (lin_sum_bound w Hw) as Hb.
+    assert (H1 : Z.of_nat (length w) * ((M - 1) * (M - 1)) <= 2 ^ lz * ((M - 1) * (M - 1))).
+    { apply Z.mul_le_mono_nonneg_r; [apply Z.mul_nonneg_nonneg; lia | assumption]. }
+    assert (H2 : 2 ^ lz * ((M - 1) * (M - 1)) <= (M * 2 ^ lz) * (M - 1)).
+    { replace (2 ^ lz * ((M - 1) * (M - 1))) with ((M - 1) * 2 ^ lz * (M - 1)) by ring.
+      apply Z.mul_le_mono_nonneg_r; [lia|]. apply Z.mul_le_mono_nonneg_r; lia. }
+    assert (H3 : M * 2 ^ lz * (M - 1) <= R * (M - 1)) by (apply Z.mul_le_mono_nonneg_r; lia).
+    assert (H4 : R * (M - 1) < M * R) by lia. lia. }
+  destruct (lincomb_window_bound n mL ninv HmL HmLn Hn Hinv w u c (mterm_term w Hw) HlenB ltac:(lia) Hsum E)
+    as (HW & Hc & Hcong & Hu & Hl).
+  split; [exact Hc|]. split; [exact HW|]. split; [exact Hcong|]. split; assumption.
+Qed.
+
 Lemma firstn_skipn_Forall {A} (P : A -> Prop) c l : Forall P l -> Forall P (firstn c l) /\ Forall P (skipn c l).
 Proof. intros H. rewrite <- (firstn_skipn c l) in H. apply Forall_app in H. exact H. Qed.
 
